@@ -83,6 +83,10 @@ func putCRSTree(w *World, root string, t *rapid.T, label string) {
 	w.Put(root+"/regex-assembly/942100.txt", dirtyRa)
 	w.Put(root+"/regex-assembly/942100.ra.bak", dirtyRa)
 	w.Put(root+"/regex-assembly/.editorconfig", "root = true\n")
+	w.Put(root+"/regex-assembly/INTRO.RA", dirtyRa)
+	w.Put(root+"/regex-assembly/include/words.Ra", dirtyRa)
+	w.Put(root+"/rules/UPPER.CONF", dirtyConf)
+	w.Put(root+"/tests/regression/tests/REQUEST-942-APPLICATION-ATTACK-SQLI/942140.YAML", dirtyYaml)
 	w.Put(root+"/rules/.gitkeep", "")
 	w.Put(root+"/tests/regression/tests/.hidden.yaml", dirtyYaml)
 	w.Put(root+"/rules/REQUEST-942-APPLICATION-ATTACK-SQLI.conf", dirtyConf)
